@@ -9,7 +9,7 @@ ENGINE_NOTE = ("Theorems are about the Lean model Engine.step? (every graph, wor
                "snapshots. Trusted: Lean kernel, the translator, the cooperative scheduler harness, CPython queue/threading/GIL atomicity, "
                "networkx adjacency. Lock-protected regions are single steps of this model; Model/EngineFine.lean has them as five interleavable "
                "steps each and Lemmas/EngineRefine.lean proves that it refines the coarse model (refine_reach), its traces are replayed too "
-               "(driver `fine`); the Queue's own mutex regions remain trusted.")
+               "(driver `fine`); Model/EngineQ.lean adds who sleeps in Queue.get / Queue.join and whom notify() wakes, proves that no wake-up is lost (Lemmas/EngineQ.lean) and replays the real sleeps and wake-ups (driver `wake`); that each Queue method body is atomic under the queue's mutex, and Condition.wait/notify themselves, remain trusted (CPython).")
 CACHE_NOTE = ("Theorems are about the Lean store-level model (Model/Cache.lean: logical plan with registry, stale check with the comparison "
               "regenerated from caching.py as Gen.Stale.staleCond, from-scratch evaluation FS, World with a logical clock; Model/History.lean: "
               "completed writes / source updates / deletions), for ALL plans, store states, histories, fresh_time values; no bound. Tie to the code: "
